@@ -97,7 +97,8 @@ def build_seed(kind, path):
             if i % 3 == 0:
                 o.add_comment("a comment", author="me")
                 o.add_file(b"\x00\x01binary", name="att.bin")
-                o.metadata = {"k": 1, "who": "me"}
+                if c in gen.BASIC_OBJECTS:  # survey classes validate their metadata layout
+                    o.metadata = {"k": 1, "who": "me"}
         g.add_comment("group comment", author="me")
         ws.contributors = np.array(["alice", "bob"])
     else:
